@@ -245,15 +245,34 @@ _ADD_LEVEL6B = {
 }
 for _k, _v in _ADD_LEVEL6B.items():
     LEVEL[_k] = LEVEL[_k] + _v
+_ADD_LEVEL7 = {
+    "C03": " Added: a refreshed reader takes its segments from the TOC; a segment of the reused reader is carried over only if its "
+           "reader was never opened from a TOC.",
+    "C11": " Added: a private alignment helper of the binary matchers reads a sub-matcher's id() only where it is known active "
+           "(also run for C01).",
+    "C13": " Added: the trie split stops when the next tier's bounds have crossed or wrapped; a range emptied by its exclusive "
+           "bounds yields no tier.",
+    "C15": " Added: Wildcard.normalize rewrites to Term/Prefix only a text free of every metacharacter the class declares; the boost "
+           "of a clause taken from a clause list is read only where the clause is known to have one.",
+    "C18": " Added: a list matcher that is given a scorer is given the term's statistics too (also run for C05, C12).",
+    "C20": " Added: a rewound, never truncated buffer is read back only up to its cursor (also run for C06, C08, C18); every "
+           "offset-table lookup is bisect_right(offsets, n) - 1 (also C01, C08, C10); the stride of a hand-addressed index element is "
+           "the item size of its typecode.",
+}
+for _k, _v in _ADD_LEVEL7.items():
+    LEVEL[_k] = LEVEL[_k] + _v
 for _k in list(LEVEL):
     LEVEL[_k] = LEVEL[_k] + (" Generic families over the property's anchor files: G1 no argument bound to the slot of another, same-named "
                              "parameter of the resolved callee; G2 no parameter dropped on the way to the callee that takes it; G3 no attribute "
                              "name read that nothing in the package or the standard library defines; G4 no constructor parameter replaced by a "
                              "constant under its own name; G5 every attribute a concrete class reads through self is bound in its hierarchy; G6 a numeric parameter is not replaced "
-                             "by a non-zero fallback through `or`; G7 every global name a function reads is bound by its module.")
+                             "by a non-zero fallback through `or`; G7 every global name a function reads is bound by its module; G8 the live "
+                             "document count is never a bound or table size for document numbers; G9 file/struct bytes are never concatenated with a "
+                             "str literal; G10 a get-or-create tests the container it fills; G11 strip() is not used to cut a literal affix; G12 a pure "
+                             "delegation returns what it delegates.")
 for _k in list(NOTE):
     NOTE[_k] = NOTE[_k] + (" All rules are invariant under the behaviour-preserving whole-tree transformations of tools/robust.py "
-                           "and silent on the 313 confirmed refactorings under benign/ (thorough tier). Independent seeding rounds: an unseen "
-                           "regression was caught in 19/40, 20/60, 23/60, 25/60, 21/60 and 21/60 cases before the rules were strengthened; an unseen refactoring "
-                           "raised a false alarm in 27/80, 27/57, 15/60, 15/60 and 16/60 cases before the machinery was corrected (DESIGN.md C2, C8, C12, C13, C14). "
+                           "and silent on the 366 confirmed refactorings under benign/ (one more, benign_open/C097, is a recorded open false alarm) (thorough tier). Independent seeding rounds: an unseen "
+                           "regression was caught in 19/40, 20/60, 23/60, 25/60, 21/60, 21/60 and 24/60 cases before the rules were strengthened; an unseen refactoring "
+                           "raised a false alarm in 27/80, 27/57, 15/60, 15/60, 16/60 and 13/50 cases before the machinery was corrected (DESIGN.md C2, C8, C12, C13, C14, C15). "
                            "The transformations are now 24.")
